@@ -1,7 +1,12 @@
 //! libc symbol interposition: I/O trace, worker gating and fault injection.
 //!
-//! The binary defines `write`, `fdatasync`, `fsync`, `ftruncate64`, `unlink`, `open64`,
-//! `pread64` and `close` itself. Rust's std is linked statically and reaches the kernel
+//! The binary defines `write`, `writev`, `pwrite64`, `pwritev`, `fdatasync`, `fsync`,
+//! `ftruncate64`/`ftruncate`, `unlink`/`unlinkat`, `open64`/`open`/`openat`/`openat64`, `pread64`
+//! and `close` itself (the calls the crate uses today plus the ones an equivalent rewrite of its
+//! I/O would plausibly use). Calls that would change chunk files behind the trace's back
+//! (`rename*` onto a chunk name, `fallocate`, `sync_file_range`, `copy_file_range`, `sendfile` on
+//! a traced descriptor) are recorded as *unsupported*: the run then ends INCONCLUSIVE instead of
+//! judging a trace that is known to be incomplete. Rust's std is linked statically and reaches the kernel
 //! through these libc symbols, so the linker binds std's calls to the definitions below;
 //! each forwards with a raw `syscall`. Only chunk files (`r-*.wal`) under the directory of
 //! the active trace are observed, everything else passes straight through.
@@ -123,6 +128,8 @@ pub struct Ctl {
     pub hard_faults_hit: u32,
     /// The harness thread that started the trace.
     pub main_tid: i32,
+    /// First call seen that the trace cannot represent (see module doc).
+    pub unsupported: Option<String>,
 }
 
 impl Ctl {
@@ -241,6 +248,7 @@ pub fn begin(dir: &str) {
         faults_hit: 0,
         hard_faults_hit: 0,
         main_tid: gettid(),
+        unsupported: None,
     }));
     ACTIVE.store(true, Ordering::SeqCst);
 }
@@ -251,6 +259,10 @@ pub fn end() -> Box<Ctl> {
     let cur = g.take().expect("trace::end without begin");
     ACTIVE.store(false, Ordering::SeqCst);
     CV.notify_all();
+    drop(g);
+    if let Some(u) = &cur.unsupported {
+        crate::driver::inconclusive(format!("the store used an I/O call the trace cannot represent ({u}); refusing to judge an incomplete trace"));
+    }
     cur
 }
 
@@ -480,9 +492,8 @@ fn chunk_name<'a>(dir: &str, path: &'a str) -> Option<&'a str> {
     }
 }
 
-#[no_mangle]
-pub unsafe extern "C" fn open64(path: *const c_char, flags: c_int, mode: mode_t) -> c_int {
-    let fd = libc::syscall(libc::SYS_openat, libc::AT_FDCWD, path, flags | libc::O_LARGEFILE, mode as libc::c_uint) as c_int;
+unsafe fn do_open(dirfd: c_int, path: *const c_char, flags: c_int, mode: mode_t) -> c_int {
+    let fd = libc::syscall(libc::SYS_openat, dirfd, path, flags | libc::O_LARGEFILE, mode as libc::c_uint) as c_int;
     if !ACTIVE.load(Ordering::Relaxed) || path.is_null() {
         return fd;
     }
@@ -495,6 +506,9 @@ pub unsafe extern "C" fn open64(path: *const c_char, flags: c_int, mode: mode_t)
                 let id = c.file_id(&name);
                 let tid = gettid();
                 c.trace.push(Ev::Open { file: id, create: flags & libc::O_CREAT != 0, ok: fd >= 0, tid });
+                if fd >= 0 && flags & libc::O_TRUNC != 0 {
+                    c.trace.push(Ev::Truncate { file: id, len: 0, tid });
+                }
                 if fd >= 0 && (fd as usize) < FD_MAX {
                     FD_MAP[fd as usize].store(id + 1, Ordering::Relaxed);
                 }
@@ -506,6 +520,26 @@ pub unsafe extern "C" fn open64(path: *const c_char, flags: c_int, mode: mode_t)
 }
 
 #[no_mangle]
+pub unsafe extern "C" fn open64(path: *const c_char, flags: c_int, mode: mode_t) -> c_int {
+    do_open(libc::AT_FDCWD, path, flags, mode)
+}
+
+#[no_mangle]
+pub unsafe extern "C" fn open(path: *const c_char, flags: c_int, mode: mode_t) -> c_int {
+    do_open(libc::AT_FDCWD, path, flags, mode)
+}
+
+#[no_mangle]
+pub unsafe extern "C" fn openat64(dirfd: c_int, path: *const c_char, flags: c_int, mode: mode_t) -> c_int {
+    do_open(dirfd, path, flags, mode)
+}
+
+#[no_mangle]
+pub unsafe extern "C" fn openat(dirfd: c_int, path: *const c_char, flags: c_int, mode: mode_t) -> c_int {
+    do_open(dirfd, path, flags, mode)
+}
+
+#[no_mangle]
 pub unsafe extern "C" fn close(fd: c_int) -> c_int {
     if fd >= 0 && (fd as usize) < FD_MAX {
         FD_MAP[fd as usize].store(0, Ordering::Relaxed);
@@ -513,20 +547,24 @@ pub unsafe extern "C" fn close(fd: c_int) -> c_int {
     libc::syscall(libc::SYS_close, fd) as c_int
 }
 
-#[no_mangle]
-pub unsafe extern "C" fn write(fd: c_int, buf: *const c_void, n: size_t) -> ssize_t {
-    let Some(file) = fd_file(fd) else {
-        return libc::syscall(libc::SYS_write, fd, buf, n) as ssize_t;
-    };
+unsafe fn raw_write(fd: c_int, buf: *const c_void, n: size_t, at: Option<off64_t>) -> ssize_t {
+    match at {
+        None => libc::syscall(libc::SYS_write, fd, buf, n) as ssize_t,
+        Some(off) => libc::syscall(libc::SYS_pwrite64, fd, buf, n, off) as ssize_t,
+    }
+}
+
+/// One write of `n` bytes at the descriptor's position (`at == None`) or at offset `at`.
+unsafe fn do_write(fd: c_int, file: FileId, buf: *const c_void, n: size_t, at: Option<off64_t>) -> ssize_t {
     if !ACTIVE.load(Ordering::Relaxed) {
-        return libc::syscall(libc::SYS_write, fd, buf, n) as ssize_t;
+        return raw_write(fd, buf, n, at);
     }
     let tid = gettid();
     let mut g = lock();
     g = park_if_gated(g, tid, Parked::Write(file, n));
     let Some(c) = g.as_mut() else {
         drop(g);
-        return libc::syscall(libc::SYS_write, fd, buf, n) as ssize_t;
+        return raw_write(fd, buf, n, at);
     };
     let mut len = n;
     if is_worker(c, tid) {
@@ -553,17 +591,185 @@ pub unsafe extern "C" fn write(fd: c_int, buf: *const c_void, n: size_t) -> ssiz
             None => {}
         }
     }
-    let off = libc::syscall(libc::SYS_lseek, fd, 0, libc::SEEK_CUR);
-    let r = libc::syscall(libc::SYS_write, fd, buf, len) as ssize_t;
+    let r = raw_write(fd, buf, len, at);
     if r >= 0 {
+        // where the bytes went: the explicit offset, or the position after the call minus what
+        // was written (right for O_APPEND descriptors too)
+        let off = match at {
+            Some(o) => o.max(0) as u64,
+            None => {
+                let after = libc::syscall(libc::SYS_lseek, fd, 0, libc::SEEK_CUR);
+                (after.max(0) as u64).saturating_sub(r as u64)
+            }
+        };
         let data = std::slice::from_raw_parts(buf as *const u8, r as usize).to_vec();
-        c.trace.push(Ev::Write { file, off: off.max(0) as u64, data, tid });
+        c.trace.push(Ev::Write { file, off, data, tid });
     } else {
         let saved = *libc::__errno_location();
         c.trace.push(Ev::WriteFail { file, tid });
         set_errno(saved);
     }
     r
+}
+
+#[no_mangle]
+pub unsafe extern "C" fn write(fd: c_int, buf: *const c_void, n: size_t) -> ssize_t {
+    match fd_file(fd) {
+        Some(file) => do_write(fd, file, buf, n, None),
+        None => libc::syscall(libc::SYS_write, fd, buf, n) as ssize_t,
+    }
+}
+
+#[no_mangle]
+pub unsafe extern "C" fn pwrite64(fd: c_int, buf: *const c_void, n: size_t, off: off64_t) -> ssize_t {
+    match fd_file(fd) {
+        Some(file) => do_write(fd, file, buf, n, Some(off)),
+        None => libc::syscall(libc::SYS_pwrite64, fd, buf, n, off) as ssize_t,
+    }
+}
+
+unsafe fn gather(iov: *const libc::iovec, cnt: c_int) -> Vec<u8> {
+    let mut v = vec![];
+    if !iov.is_null() && cnt > 0 {
+        for io in std::slice::from_raw_parts(iov, cnt as usize) {
+            if !io.iov_base.is_null() && io.iov_len > 0 {
+                v.extend_from_slice(std::slice::from_raw_parts(io.iov_base as *const u8, io.iov_len));
+            }
+        }
+    }
+    v
+}
+
+/// A vectored write is performed as one write of the gathered bytes (it may legally be short).
+#[no_mangle]
+pub unsafe extern "C" fn writev(fd: c_int, iov: *const libc::iovec, cnt: c_int) -> ssize_t {
+    match fd_file(fd) {
+        Some(file) => {
+            let v = gather(iov, cnt);
+            do_write(fd, file, v.as_ptr() as *const c_void, v.len(), None)
+        }
+        None => libc::syscall(libc::SYS_writev, fd, iov, cnt) as ssize_t,
+    }
+}
+
+#[no_mangle]
+pub unsafe extern "C" fn pwritev(fd: c_int, iov: *const libc::iovec, cnt: c_int, off: off64_t) -> ssize_t {
+    match fd_file(fd) {
+        Some(file) => {
+            let v = gather(iov, cnt);
+            do_write(fd, file, v.as_ptr() as *const c_void, v.len(), Some(off))
+        }
+        None => libc::syscall(libc::SYS_pwritev, fd, iov, cnt, off, 0 as libc::c_long) as ssize_t,
+    }
+}
+
+#[no_mangle]
+pub unsafe extern "C" fn pwritev64(fd: c_int, iov: *const libc::iovec, cnt: c_int, off: off64_t) -> ssize_t {
+    pwritev(fd, iov, cnt, off)
+}
+
+fn note_unsupported(what: String) {
+    if let Some(c) = lock().as_mut() {
+        if c.unsupported.is_none() {
+            c.unsupported = Some(what);
+        }
+    }
+}
+
+unsafe fn path_is_chunk(path: *const c_char) -> bool {
+    if path.is_null() || !ACTIVE.load(Ordering::Relaxed) {
+        return false;
+    }
+    let Ok(p) = CStr::from_ptr(path).to_str() else { return false };
+    let g = lock();
+    match g.as_ref() {
+        Some(c) => chunk_name(&c.dir, p).is_some(),
+        None => false,
+    }
+}
+
+#[no_mangle]
+pub unsafe extern "C" fn rename(from: *const c_char, to: *const c_char) -> c_int {
+    if path_is_chunk(from) || path_is_chunk(to) {
+        note_unsupported("rename() of a chunk file".to_string());
+    }
+    libc::syscall(libc::SYS_renameat2, libc::AT_FDCWD, from, libc::AT_FDCWD, to, 0) as c_int
+}
+
+#[no_mangle]
+pub unsafe extern "C" fn renameat(fd1: c_int, from: *const c_char, fd2: c_int, to: *const c_char) -> c_int {
+    if path_is_chunk(from) || path_is_chunk(to) {
+        note_unsupported("renameat() of a chunk file".to_string());
+    }
+    libc::syscall(libc::SYS_renameat2, fd1, from, fd2, to, 0) as c_int
+}
+
+#[no_mangle]
+pub unsafe extern "C" fn renameat2(fd1: c_int, from: *const c_char, fd2: c_int, to: *const c_char, flags: libc::c_uint) -> c_int {
+    if path_is_chunk(from) || path_is_chunk(to) {
+        note_unsupported("renameat2() of a chunk file".to_string());
+    }
+    libc::syscall(libc::SYS_renameat2, fd1, from, fd2, to, flags) as c_int
+}
+
+#[no_mangle]
+pub unsafe extern "C" fn fallocate64(fd: c_int, mode: c_int, off: off64_t, len: off64_t) -> c_int {
+    if fd_file(fd).is_some() && ACTIVE.load(Ordering::Relaxed) {
+        note_unsupported("fallocate() on a chunk file".to_string());
+    }
+    libc::syscall(libc::SYS_fallocate, fd, mode, off, len) as c_int
+}
+
+#[no_mangle]
+pub unsafe extern "C" fn fallocate(fd: c_int, mode: c_int, off: off64_t, len: off64_t) -> c_int {
+    fallocate64(fd, mode, off, len)
+}
+
+#[no_mangle]
+pub unsafe extern "C" fn posix_fallocate64(fd: c_int, off: off64_t, len: off64_t) -> c_int {
+    if fd_file(fd).is_some() && ACTIVE.load(Ordering::Relaxed) {
+        note_unsupported("posix_fallocate() on a chunk file".to_string());
+    }
+    let r = libc::syscall(libc::SYS_fallocate, fd, 0, off, len) as c_int;
+    if r == 0 {
+        0
+    } else {
+        *libc::__errno_location()
+    }
+}
+
+#[no_mangle]
+pub unsafe extern "C" fn posix_fallocate(fd: c_int, off: off64_t, len: off64_t) -> c_int {
+    posix_fallocate64(fd, off, len)
+}
+
+#[no_mangle]
+pub unsafe extern "C" fn sync_file_range(fd: c_int, off: off64_t, n: off64_t, flags: libc::c_uint) -> c_int {
+    if fd_file(fd).is_some() && ACTIVE.load(Ordering::Relaxed) {
+        note_unsupported("sync_file_range() on a chunk file".to_string());
+    }
+    libc::syscall(libc::SYS_sync_file_range, fd, off, n, flags) as c_int
+}
+
+#[no_mangle]
+pub unsafe extern "C" fn copy_file_range(fd_in: c_int, off_in: *mut off64_t, fd_out: c_int, off_out: *mut off64_t, len: size_t, flags: libc::c_uint) -> ssize_t {
+    if fd_file(fd_out).is_some() && ACTIVE.load(Ordering::Relaxed) {
+        note_unsupported("copy_file_range() into a chunk file".to_string());
+    }
+    libc::syscall(libc::SYS_copy_file_range, fd_in, off_in, fd_out, off_out, len, flags) as ssize_t
+}
+
+#[no_mangle]
+pub unsafe extern "C" fn sendfile64(fd_out: c_int, fd_in: c_int, off: *mut off64_t, len: size_t) -> ssize_t {
+    if fd_file(fd_out).is_some() && ACTIVE.load(Ordering::Relaxed) {
+        note_unsupported("sendfile() into a chunk file".to_string());
+    }
+    libc::syscall(libc::SYS_sendfile, fd_out, fd_in, off, len) as ssize_t
+}
+
+#[no_mangle]
+pub unsafe extern "C" fn sendfile(fd_out: c_int, fd_in: c_int, off: *mut off64_t, len: size_t) -> ssize_t {
+    sendfile64(fd_out, fd_in, off, len)
 }
 
 unsafe fn do_sync(fd: c_int, nr: libc::c_long) -> c_int {
@@ -622,6 +828,11 @@ pub unsafe extern "C" fn ftruncate64(fd: c_int, len: off64_t) -> c_int {
 }
 
 #[no_mangle]
+pub unsafe extern "C" fn ftruncate(fd: c_int, len: off64_t) -> c_int {
+    ftruncate64(fd, len)
+}
+
+#[no_mangle]
 pub unsafe extern "C" fn pread64(fd: c_int, buf: *mut c_void, n: size_t, off: off64_t) -> ssize_t {
     let r = libc::syscall(libc::SYS_pread64, fd, buf, n, off) as ssize_t;
     if let Some(file) = fd_file(fd) {
@@ -635,6 +846,15 @@ pub unsafe extern "C" fn pread64(fd: c_int, buf: *mut c_void, n: size_t, off: of
         }
     }
     r
+}
+
+#[no_mangle]
+pub unsafe extern "C" fn unlinkat(dirfd: c_int, path: *const c_char, flags: c_int) -> c_int {
+    // only absolute chunk paths can be recognised; a directory removal is never one
+    if flags & libc::AT_REMOVEDIR == 0 && path_is_chunk(path) {
+        return unlink(path);
+    }
+    libc::syscall(libc::SYS_unlinkat, dirfd, path, flags) as c_int
 }
 
 #[no_mangle]
